@@ -100,6 +100,9 @@ fn main() {
             }
             println!("{:#?}", errs);
         }
+        "worker" => {
+            vh::engine::isolate::worker_main(vh::engine::jobs::handle);
+        }
         "list" => {
             for p in props::all() {
                 println!("{}", p.id);
